@@ -6,6 +6,7 @@ import (
 	"github.com/libp2p/go-libp2p/core/peer"
 
 	"github.com/ipfs/go-graphsync/messagequeue"
+	"github.com/ipfs/go-graphsync/verifhook"
 )
 
 // PeerQueue is a process that sends messages to a peer
@@ -35,5 +36,8 @@ func NewMessageManager(ctx context.Context, createPeerQueue PeerQueueFactory) *P
 // If blkSize > 0, message building may block until enough memory has been freed from the queues to allocate the message.
 func (pmm *PeerMessageManager) AllocateAndBuildMessage(p peer.ID, blkSize uint64, buildMessageFn func(*messagequeue.Builder)) {
 	pq := pmm.GetProcess(p).(PeerQueue)
+	if verifhook.Enabled {
+		verifhook.Yield("peermanager.gotProcess", string(p), pmm.PeerManager)
+	}
 	pq.AllocateAndBuildMessage(blkSize, buildMessageFn)
 }
